@@ -1449,6 +1449,13 @@ where
     trace!("Reading BPB");
     let block = block_cache.read(lba_start).map_err(Error::DeviceError)?;
     let bpb = Bpb::create_from_bytes(block).map_err(Error::FormatError)?;
+    // Block indices are 32 bits wide: a volume that claims to reach beyond
+    // that cannot be addressed (and would overflow the arithmetic below).
+    if u64::from(lba_start.0) + u64::from(bpb.total_blocks()) > (1u64 << 32) {
+        return Err(Error::FormatError(
+            "Volume extends beyond the addressable block range",
+        ));
+    }
     let fat_start = BlockCount(u32::from(bpb.reserved_block_count()));
     let second_fat_start = if bpb.num_fats() == 2 {
         Some(fat_start + BlockCount(bpb.fat_size()))
